@@ -197,6 +197,19 @@ P["C04"] = {"property": "C04", "level": "proof", "units": [
     vc("C04"),
 ]}
 
+# ====================== jwt_checker_verify (top level) =====================
+TOP_STUBS = LIBC + ["stubs/time.c", "stubs/verify_top.c"]
+def top(prop, replay=None, **kw):
+    c = "contract_%s_jwt_checker_verify" % prop
+    return U(prop + ".jwt_checker_verify", "jwt_checker_verify (libjwt/jwt-common.c as jwt-checker)", common_tu("CHECKER"),
+             "contracts/jwt_common_c.h",
+             "OPS_TAKE_ADDRESSES(all); void *volatile cbp = (void *)contract_cb_checker; jwt_checker_t *c; size_t n; __CPROVER_assume(n < 0x10000000); char *tok = nondet_bool() ? NULL : VS(n); jwt_checker_verify(c, tok);",
+             "jwt_checker_verify/" + c,
+             replace=["__setkey_check/contract_C02___setkey_check", "jwt_verify_complete/contract_all_jwt_verify_complete"],
+             stubs=TOP_STUBS, defines=["VERIF_TU_CHECKER", "VERIF_STRCPY_ERRBUF"], pre=[VS], flags=[], object_bits=10, timeout=900,
+             expect=[c + "\\.postcondition\\.2", "contract_all_jwt_verify_complete\\.precondition", "contract_cb_checker\\.precondition"],
+             replay=replay, **kw)
+
 # ============================ parsing units =================================
 VERIFY_JSON_STUBS = LIBC + ["stubs/time.c", "stubs/jansson.c", "stubs/alloc.c"]
 def parse_units(prop, clauses_name):
@@ -231,6 +244,9 @@ P["C06"] = {"property": "C06", "level": "proof", "units": [
 
 # =============================== C09 =======================================
 P["C09"] = {"property": "C09", "level": "proof", "units": gate_chain("C09") + [vc("C09")]}
+
+P["C19"] = {"property": "C19", "level": "proof", "units": [top("C19")]}
+P["C14"]["units"].append(top("C14"))
 
 # ---------------------------------------------------------------------------
 def main():
